@@ -106,6 +106,9 @@ def k7scen (t : Tokens) : String :=
   | "close-blocked-other-fid-proceeds" => "progressed=1"
   | "two-tlopen-one-fid" => "opens=1"
   | "rename-samedir-while-last-ref-dropped" => "renamed=1 alive=1"
+  | "rename-dir-while-child-closing" => "renamed=1 uac=0"
+  | "clunk-races-inflight-read" => "clunked=1 closed_early=0 closed_after=1 uac=0"
+  | "cut-with-request-in-backend" => "returned_early=0 closed_early=0 returned=1 leaks= dbl= uac="
   | _ => "?"
 
 end P9.Driver
